@@ -429,7 +429,9 @@ func (s *Service) serviceRequestWithTarget(w http.ResponseWriter, r *http.Reques
 
 		simYield("service.afterGate", r)
 		lb := s.loadBalancerForRequest(r)
+		simYield("lb.claim", r)
 		target, req, err := lb.claimTarget(r)
+		simYield("service.claimed", r)
 
 		if s.pauseController.GetState() != PauseStateRunning {
 			// The service was paused or stopped after this request passed the
@@ -446,6 +448,7 @@ func (s *Service) serviceRequestWithTarget(w http.ResponseWriter, r *http.Reques
 			return
 		}
 
+		simYield("lb.claimed", req)
 		target.SendRequest(w, req)
 		return
 	}
